@@ -120,8 +120,9 @@ PROPS = {
     "C05": {
         "module": "Cuke.Props.C05",
         "namespace": "Cuke.C05",
-        "families": [("sched.run", 600, 40000), ("sched.lazy", 400, 30000)],
-        "segments": {"sched.run": [2, 0, 9]},
+        "families": [("sched.run", 600, 40000), ("sched.lazy", 400, 30000), ("attempt.run", 400, 30000)],
+        "segments": {"sched.run": [2, 0, 9], "attempt.run": [2]},
+        "skip_prefixes": ["mon.c09", "mon.c10"],
         "segment_names": ['R', 'Q', 'c05'],
         "modelled_not_verified": ["futures crate: FuturesUnordered, mpsc channels, join/select (the plumbing is checked by comparing sent and received event sequences)", "the async executor (hand-polled by the harness) and Instant / thread::sleep (clock readings are environment inputs of the model)", "HashMap iteration order at finish_all (model: any order inside the rule group and the feature group)", "the retry delay is checked against two clock readings bracketing get(); wall-clock sleeping is runtime behaviour"],
     },
